@@ -86,6 +86,9 @@ def first_key_stress(rng):
     for n in (15, 16, 65535, 65536):
         docs.append([0] * n)
         docs.append({"k%d" % i: 0 for i in range(n)})
+    # output longer than any look-ahead a trial might take, with multi-byte characters at shifted alignments
+    for shift in range(4):
+        docs.append({"s" * (shift + 1): "\u00e9" * 700, "t": ["\u20ac" * 400, "\U0001f600" * 300]})
     return docs
 
 
@@ -116,9 +119,9 @@ def run_self_detection(outcome, tier, seed):
     reqs2, plans2 = [], []
     for v, to, nd, i in plans:
         r = shared.session_result(resps[i])
-        if r[0] != "ok" or r[2] in ("-", ""):
-            continue
-        out = r[2]
+        if r[0] != "ok" or (r[2] in ("-", "") and to != "toml"):
+            continue      # (an empty table's TOML output is zero bytes, and zero bytes are a TOML document: kept)
+        out = r[2] if r[2] else "-"
         x = rng.choice(fidelity.FORMATS[:2] + ["msgpack"])
         for mode in ("slice", "reader"):
             sched = corpus.random_sched(rng)
@@ -134,7 +137,7 @@ def run_self_detection(outcome, tier, seed):
         a, b = shared.session_result(resps2[base]), shared.session_result(resps2[base + 1])
         det = resps2[base + 2].get("detected")
         tr = resps2[base + 3]
-        raw = bytes.fromhex(out)
+        raw = bytes.fromhex(out) if out != "-" else b""
         info = {"written_as": to, "documents": nd, "mode": mode, "sched": sched, "output_hex": out[:1500], "value": repr(v)[:300],
                 "detected": det, "reread_to": x}
         if to == "toml":
